@@ -31,9 +31,11 @@ META = {
                   "strictly convex, over R; square border polygon weakly convex for every n>=3, flat only along one side); "
                   "discrete maximum principle (positive weights - automatic for uniform weights -, every interior vertex "
                   "linked to the border: every interior vertex lies in every closed half-plane containing the border "
-                  "positions, i.e. in their convex hull). PARTIAL: the fold-free clause is Tutte/Floater's theorem, stated but NOT proved; "
+                  "positions, i.e. in their convex hull; the combinatorial premises are reflected from the boolean test "
+                  "disk_links_b, which every checked case must pass). PARTIAL: the fold-free clause is Tutte/Floater's theorem, stated but NOT proved; "
                   "what each run establishes instead, on its generated disks only, is kernel-checked evidence: an exact "
-                  "rational solution of the model's system is verified (proved sound: an accepted certificate IS a solution "
+                  "rational solution of the model's system is verified (C17_fold_free_checker_soundness_partial is ONLY the "
+                  "soundness of this per-case checker: an accepted certificate IS a solution "
                   "and its triangles are strictly co-oriented), mouette's floats agree with it to 1e-9, and all triangles of "
                   "mouette's own output have one strict orientation (decided exactly) - evidence, not proof.",
     "level_note": "Trusted: Coq kernel + vm_compute; the tutte/laplacian/base translator; the correspondence harness "
@@ -43,6 +45,8 @@ META = {
                   "element assignment are modelled by hand and tied by the correspondence; connectivity "
                   "(vertex_to_corners, border cycle, interior/boundary lists) is taken as observed and re-checked.",
 }
+
+EXACT_ORIENT_BITS = 1500
 
 HEADER = """From Coq Require Import ZArith QArith List Bool Uint63.
 Import ListNotations.
@@ -344,7 +348,7 @@ def case_term(case, obs, cert):
             % (zlit(len(case["verts"])), fz, coq_bool(case["cotan"]), cot, mode, custom, zlit(obs["ne"]),
                zlist(obs["free"]), zlist(obs["bnd"]), coq_list([fpair(p) for p in pool]), iV, iC, ifV, ifC,
                coq_list([fpair(p) for p in turn_pairs(case, obs)]), zbig(cert["D"]), coq_list([zbig(x) for x in cert["NU"]]), coq_list([zbig(x) for x in cert["NV"]]),
-               coq_bool(cert["posw"]), coq_bool(cert["D"].bit_length() <= 1500)))
+               coq_bool(cert["posw"]), coq_bool(cert["D"].bit_length() <= EXACT_ORIENT_BITS)))
 
 
 # ---------------------------------------------------------------------- running the implementation
@@ -460,6 +464,13 @@ def run(ctx):
         "(evidence)"]
     ctx.regen(sys.modules[__name__])
     b = ctx.build_props(extra_targets=["theories/C17/Run.vo"])
+    if not b["model_ok"]:
+        # the tree is shared (one Makefile / dependency scan for all properties): a concurrent regeneration by another
+        # check can make this step fail transiently; the model is only declared broken if it fails twice
+        time.sleep(3)
+        ok2, log2 = ctx.make(["theories/C17/Model.vo", "theories/C17/Run.vo"])
+        ctx.log("model build retried: %s" % ("ok" if ok2 else "failed again\n" + core.tail(log2, 15)))
+        b["model_ok"] = ok2
     ctx.hygiene(["Lib", "C17"])
 
     corpus = []
@@ -489,6 +500,7 @@ def run(ctx):
 
     fails = []
     terms, term_idx = [], []
+    dropped = skipped_exact = 0
     for ui, (c, o, ci, step) in enumerate(units):
         fl = O.oracle(c, o)
         for key, msg in fl:
@@ -534,15 +546,33 @@ def run(ctx):
             try:
                 cert = certificate(c, o)
             except Exception as ex:      # e.g. the implementation did not leave the cotangents it was asked to use
-                ctx.count("no certificate: %s" % type(ex).__name__)
+                ctx.count("DROPPED from the correspondence: no certificate (%s)" % type(ex).__name__)
+                dropped += 1
                 continue
             if cert is None:
-                ctx.count("interior system singular (no certificate)")
+                ctx.count("DROPPED from the correspondence: interior system singular (no certificate)")
+                dropped += 1
                 continue
+            if cert["D"].bit_length() > EXACT_ORIENT_BITS:
+                ctx.count("exact-solution orientation NOT evaluated (denominator > %d bits); float orientation still decided exactly" % EXACT_ORIENT_BITS)
+                skipped_exact += 1
+            else:
+                ctx.count("exact-solution orientation evaluated (if promised)")
             terms.append(case_term(c, o, cert))
             term_idx.append(ui)
+        else:
+            dropped += 1      # driver error: also an oracle failure (key 'error'), reported below
+    unknown = [f for f in fails if not ctx.known(f[1])]
     ctx.obligation("oracle: border placement, weighted-average residual, strict common orientation, outputs agree, gate - on every case",
-                   "oracle-on-implementation", True, "%d failing observations" % len(fails))
+                   "oracle-on-implementation", not unknown,
+                   "%d failing observations, %d not covered by a listed known finding" % (len(fails), len(unknown)))
+    ctx.extra["units"] = len(units)
+    ctx.extra["dropped_from_correspondence"] = dropped
+    ctx.extra["exact_orientation_skipped"] = skipped_exact
+    ctx.obligation("harness coverage: at least one unit evaluated, at most 3% of the units dropped (no certificate / driver error), "
+                   "at most 10% without exact-solution orientation",
+                   "harness", len(units) > 0 and dropped * 100 <= 3 * len(units) and skipped_exact * 10 <= len(units),
+                   "%d units, %d dropped, %d without exact-solution orientation" % (len(units), dropped, skipped_exact))
 
     bad = []
     if b["model_ok"]:
